@@ -1251,3 +1251,7 @@ class SamplePrimitive(_NoReplay):
         yield "arguments_forwarded", r[1]["call"] == self.args
         out = r[0]["ks"]("K", "x", sample_shape=(2,), extra=1)
         yield "keyed_sampler_is_the_primitives_sample_with_key", out == "keyed-draw" and self.keyed == [("K", ("x",), (2,))]
+
+from vt.contract import track as _track  # noqa: E402
+
+_track(FLIPS.calls, (NRM, "sample_calls"), (UNI, "sample_calls"), GRADS, S.STAGE.calls)
